@@ -31,9 +31,6 @@ Definition analyze (i : instr) (addr : Z) : option binfo :=
       match i_ops i with
       | [OImm16 v] => mk (fb ++ [(ty, Some (Z.lor (Z.of_N v) (Z.land addr 16711680)))])
       | [OImm20 lo mid hi] => mk (fb ++ [(ty, Some (Z.of_N (imm20 lo mid hi)))])
-      | [OIMem w n] =>
-          (* IMem8/16/20 are ImmOperand subclasses: the operand byte itself is reported as the target *)
-          mk (fb ++ [(ty, Some (if (w <? 3)%N then Z.lor (Z.of_N n) (Z.land addr 16711680) else Z.of_N n))])
       | _ => mk fb
       end
   | I_JP_Rel =>
